@@ -21,6 +21,9 @@ DECLINED = ["translation correctness while other streams mutate colliding bucket
             "execution exactly once under arbitrary user pop policies"]
 ASSUMPTIONS = ["user callbacks create_unit/free_unit are opaque"]
 RULES_DOC = dict(common.SHARED_DOC)
+RULES_DOC["R5"] = "unit_unmap_thread clears exactly one entry of the bucket on every path (the walk stops at the first match): two user pools may hand out equal unit values for one work unit while it moves, and the entry just registered must survive the removal of the old one"
+RULES_DOC["X4"] = common.X4_DOC
+RULES_DOC["R6"] = "= C11.R4: ABT_thread_yield_to removes the target's unit from the target's own pool (the pool that holds the unit), before switching to it"
 RULES_DOC.update({
     "R1": "unit typestate on every path of set/init/unset associated pool: create -> map -> store | free(new) ; unmap(old) -> free(old pool) once; no use after free",
     "R2": "unit map: node initialised before the release-store publication, acquire-load lookups, all bucket writes under the bucket lock, head read and publication in one critical section",
@@ -374,11 +377,31 @@ def rule_R3(P, rep):
            site="old_def/copy")
 
 
+def rule_R5(P, rep):
+    F = P.fn("unit_unmap_thread", "src/unit.c")
+    sel = seq.Sel(calls=lambda fn: fn.startswith("atomic_") and "store_unit" in fn and "unit_to_thread" not in fn, locks=True, canon=True)
+    n = 0
+    worst = 0
+    for toks, kind, rv, rtxt in seq.sequences(F, sel, max_repeat=3, max_len=60):
+        if kind != "ret":
+            continue
+        clears = [t for t in toks if t[0] == "call"]
+        n += 1
+        worst = max(worst, len(clears))
+        rep.ob("R5", "unit_unmap_thread path clears exactly one entry (%d)" % len(clears), len(clears) == 1,
+               "a returning path clears %d entries" % len(clears), loc="%s:%d" % (F.file, F.line), site="unit_unmap/clears/%d" % len(clears))
+    rep.need(n >= 1, "unit_unmap_thread: no returning path")
+
+
 def run(P, rep, tier):
+    common.rule_X4(P, rep)
     common.run_shared(P, rep, which=("X2",))
     rule_R1(P, rep)
     rule_R2(P, rep)
     rule_R3(P, rep)
+    rule_R5(P, rep)
+    from . import C11
+    common.borrow(rep, P, C11.rule_R4, "R6")
     sub = type(rep)(rep.prop, rep.tier, rep.variant)
     C03.rule_R5(P, sub)
     for o in sub.obligations:
